@@ -203,6 +203,10 @@ def run(ctx):
         elif ci == 2:
             size, maxreq, seed, bias = 100, 32768, None, "random"
             ops = [("prefetch", 100, None), ("read", 10), ("readv", [(50, 60)], None)]
+        elif ci == 3:  # cap = 0 (outside the property's range): modelled, must starve exactly as the model says
+            size, maxreq, seed, bias = 8, 4, None, "random"
+            ops = [("readv", [(2, 3)], 0)]
+        cap0 = any(o[0] in ("readv", "prefetch") and o[2] == 0 for o in ops)
         data, res, trace = lockstep_case(rng, size, maxreq, seed, ops, bias)
         case = {"size": size, "maxreq": maxreq, "short_read_seed": seed, "bias": bias,
                 "ops": [list(o) for o in ops], "file": hx(data) if size <= 64 else "prng(%d)" % size}
@@ -220,7 +224,11 @@ def run(ctx):
             ctx.sample({"case": case, "trace_head": trace[:40]})
         # oracle
         exp = expected_results(data, ops)
-        if res["hang"]:
+        if res["hang"] and cap0:
+            ctx.dist("cap0:starves-as-modelled")
+        elif cap0:
+            ctx.disagree("cap0", case, "model: the reader starves (cap_zero_starves_witness)", "the call returned")
+        elif res["hang"]:
             ctx.fail("read-hangs", case, "deterministic schedule reaches a state where the reader waits and no task is "
                      "enabled; trace tail: %s" % trace[-12:])
         elif res["exc"] is not None:
@@ -284,17 +292,20 @@ META = {
     "level": ("Proved in Lean for every schedule of reader / prefetch threads / short-reading server, every chunk list "
               "(overlapping, unordered, beyond EOF), every cap and every short-read choice: prefetch buffers always hold "
               "true file content; every completed read(n) returns file[p:p+n] truncated at EOF and read() returns "
-              "file[p:] (reads_exact); a reader blocked waiting for a response always has an enabled peer "
-              "(waiting_reader_not_stuck_partial) and the peers' steps are bounded by a measure (bounded_wait_partial). "
-              "PARTIAL in one point: the reader's spin in _async_response (answer arrived before _prefetch_thread "
-              "registered the extent) is not covered by the no-hang theorem (needs request-number uniqueness). Tied to "
+              "file[p:] (reads_exact); request numbers are fresh and in flight at most once, every extent is keyed by "
+              "the number of a request still in flight (request_numbers_unique); a blocked reader — waiting for a "
+              "response, or spinning in _async_response because the answer arrived before the thread registered the "
+              "extent — always has an enabled peer (waiting_reader_not_stuck) and the peers' steps are bounded by a "
+              "measure (bounded_wait). cap = 0 is outside the property's range: the code's test never passes, the model "
+              "starves the same way (cap_zero_starves_witness) and the lockstep run replays it. Tied to "
               "sftp_file.py/sftp_client.py by a deterministic lockstep run of the real code under PRNG-chosen "
               "schedules: every action enabled, enabled sets, bookkeeping state and returned bytes compared per step."),
     "note": ("Trusted: Lean kernel + 3 standard axioms; the lockstep scheduler (park points = the model's shared "
              "accesses; code between two park points touches only task-private state or runs under the lock the model "
              "treats as atomic); honest server (DATA carries 1..n true bytes; EOF iff offset >= size; answers in "
              "request order); BufferedFile in unbuffered mode in the model (buffered modes only in the threaded "
-             "oracle); no-hang theorems assume caps are None or >= 1 (cap 0 spins by construction)."),
-    "technique": "Lean 4 proof (inductive invariants over an interleaving semantics + progress measure) + deterministic "
-                 "scheduler lockstep correspondence + threaded oracle with structural hang detection",
+             "oracle); the no-hang theorems assume caps None or >= 1."),
+    "technique": "Lean 4 proof (inductive invariants over an interleaving semantics, request-number uniqueness by "
+                 "counting, progress measure) + deterministic scheduler lockstep correspondence + threaded oracle with "
+                 "structural hang detection",
 }
